@@ -2,6 +2,8 @@ package props
 
 import (
 	"fmt"
+	"sync"
+	"sync/atomic"
 	"testing"
 
 	"verif/evid"
@@ -190,4 +192,117 @@ func TestC19Exhaustive(t *testing.T) {
 			return
 		}
 	}
+}
+
+// TestC19Concurrent: the graph guards itself with a lock and caches answers.
+// Queries issued from other goroutines while a mutation is in progress must
+// not leave anything behind: once everything has returned, every query agrees
+// with the reference that received the mutations (which are all issued by one
+// goroutine, so their order is defined). What the concurrent queries themselves
+// return is not judged - only that they return.
+func TestC19Concurrent(t *testing.T) {
+	col := evid.New("C19", "queries-overlapping-mutations", "rounds over one graph of up to 16 node identities: a mutation (immediate/deferred add, replace, remove, clear, detect) that invalidates the cached answers, then 1-3 goroutines issuing read-only queries (topological order, acyclicity, roots, leaves, transitive dependencies) released by a spin barrier at the very moment the next mutation is issued; after all have returned (and a pending deferred add was completed) every query is compared with the reference digraph; non-trivial = a round in which a query that fills a cache overlapped a mutation; distinct by (mutations, query plan)")
+	defer col.Flush()
+	rapid.Check(t, func(rt *rapid.T) {
+		n := 16
+		s := newGSys(n)
+		// a starting graph of some size: the longer a query computes, the wider the window
+		for v := 0; v < n; v++ {
+			if rapid.IntRange(0, 4).Draw(rt, "startHas") > 0 {
+				var deps []int
+				for d := v + 1; d < n; d++ {
+					if rapid.IntRange(0, 3).Draw(rt, "startEdge") == 0 {
+						deps = append(deps, d)
+					}
+				}
+				if err := s.addDeferred(v, deps); err != nil {
+					rt.Fatal(err)
+				}
+			}
+		}
+		if err := s.detect(); err != nil {
+			rt.Fatalf("start graph: %v", err)
+		}
+		apply := func(o gOp) error {
+			switch o.Kind {
+			case 0:
+				_, e := s.addImmediate(o.V, o.Deps)
+				return e
+			case 1:
+				return s.addDeferred(o.V, o.Deps)
+			case 2:
+				s.remove(o.V)
+			case 3:
+				s.clear()
+			case 4:
+				return s.detect()
+			}
+			return nil
+		}
+		rounds := rapid.IntRange(2, 10).Draw(rt, "rounds")
+		var log []string
+		for r := 0; r < rounds; r++ {
+			a := genGOp(n).Draw(rt, "first")
+			b := genGOp(n).Draw(rt, "second")
+			if a.Kind == 3 && rapid.IntRange(0, 3).Draw(rt, "keepClear") > 0 {
+				a.Kind = 2 // clear now and then only: it empties the graph
+			}
+			if b.Kind == 3 && rapid.IntRange(0, 3).Draw(rt, "keepClear2") > 0 {
+				b.Kind = 2
+			}
+			if err := apply(a); err != nil {
+				rt.Fatalf("round %d %s: %v\nlog: %v", r, a, err, log)
+			}
+			nq := rapid.IntRange(1, 3).Draw(rt, "readers")
+			plans := make([][]int, nq)
+			for i := range plans {
+				plans[i] = rapid.SliceOfN(rapid.IntRange(0, 4), 1, 3).Draw(rt, "queries")
+			}
+			log = append(log, fmt.Sprintf("%s | %s with queries %v", a, b, plans))
+			var goFlag atomic.Bool
+			var wg sync.WaitGroup
+			var ready atomic.Int32
+			for _, plan := range plans {
+				wg.Add(1)
+				go func(plan []int) {
+					defer wg.Done()
+					ready.Add(1)
+					for !goFlag.Load() {
+					}
+					for _, q := range plan {
+						switch q {
+						case 0:
+							_, _ = s.g.TopologicalSort()
+						case 1:
+							_ = s.g.IsAcyclic()
+						case 2:
+							_ = s.g.GetRoots()
+						case 3:
+							_ = s.g.GetLeaves()
+						case 4:
+							k := s.pool[len(plan)%len(s.pool)]
+							_ = s.g.GetTransitiveDependencies(k.Type, k.Key, k.Group)
+						}
+					}
+				}(plan)
+			}
+			for ready.Load() < int32(nq) {
+			}
+			goFlag.Store(true)
+			err := apply(b)
+			wg.Wait()
+			if err != nil {
+				rt.Fatalf("round %d %s: %v\nlog: %v", r, b, err, log)
+			}
+			if s.pending {
+				if err := s.detect(); err != nil {
+					rt.Fatalf("round %d detect: %v\nlog: %v", r, err, log)
+				}
+			}
+			if err := s.checkQueries(); err != nil {
+				rt.Fatalf("round %d, after everything returned: %v\nlog: %v", r, err, log)
+			}
+		}
+		col.Case(true, fmt.Sprint(log), fmt.Sprint(log), fmt.Sprintf("rounds=%d", rounds))
+	})
 }
